@@ -559,6 +559,18 @@ func CheckEqualCopy(checks *int, fails *[]string, name string, ptr any) {
 	}
 }
 
+// CheckDeepCopyIfAny is CheckDeepCopy for a type that is only reached as a dependency: whether such a type gets
+// methods of its own is the generator's choice (the roots that contain it are judged either way); if it has a
+// DeepCopy method, that method is held to the same standard.
+func CheckDeepCopyIfAny(checks *int, fails *[]string, name string, ptr any) {
+	if m := reflect.ValueOf(ptr).MethodByName("DeepCopy"); !m.IsValid() {
+		if _, onValue := reflect.TypeOf(ptr).Elem().MethodByName("DeepCopy"); !onValue {
+			return
+		}
+	}
+	CheckDeepCopy(checks, fails, name, ptr)
+}
+
 // CheckDeepCopy exercises the generated DeepCopy of the value ptr points to.
 func CheckDeepCopy(checks *int, fails *[]string, name string, ptr any) {
 	fail := func(format string, a ...any) { *fails = append(*fails, name+": "+fmt.Sprintf(format, a...)) }
